@@ -529,6 +529,8 @@ package transport
 //@   trusted
 //@   requires call != nil
 //@   modifies nothing
+// (a dial that reports no error delivers a connection)
+//@   ensures err == nil ==> c != nil
 //@ func (t *QuicTransport) getConn(ctx context.Context) (c quic.Connection, newConn bool, err error)
 //@   props C18
 //@   requires t != nil && ctx != nil && t.opts.DialContext != nil && t.logger != nil && t.ctx != nil
@@ -539,6 +541,7 @@ package transport
 //@   oncall go: nGo = nGo + 1
 //@   modifies t.c, t.dialingCall
 //@   ensures [C18:closed-transport-hands-out-nothing] old(t.closed) ==> err == ErrClosedTransport && c == nil && nGo == 0
+//@   ensures err == nil ==> c != nil
 //@   ensures [C18:one-dial-at-a-time] nGo == ((!old(t.closed) && old(t.dialingCall) == nil && (old(t.c) == nil || t.c == nil)) ? 1 : 0) && !held
 //@   callsite go: [C18:dial-registered-before-it-starts] !held && t.dialingCall != nil && t.dialingCall.done != nil && t.dialingCall.c == nil && t.dialingCall.err == nil
 
@@ -554,6 +557,45 @@ package transport
 //@   ensures nGo == 1
 //@   callsite go: [C20:goroutine-shares-no-result-variable-with-its-spawner] !capturesVar(err) && !capturesVar(resp)
 //@   callsite go: [C20:reply-travels-over-a-private-channel] capturesVar(rc) && capturesVar(payload) && capturesVar(stream)
+
+// QuicTransport.ExchangeContext: the query goes out as one length-prefixed frame that is a private copy of the
+// caller's bytes with the DNS ID set to 0 (RFC 9250 4.2.1) - the caller's buffer is not touched -, the reply comes
+// back with the caller's ID restored, and the framed copy is never recycled here (the exchange goroutine may still
+// be writing it after an early return; D15).
+//@ func (t *QuicTransport) ExchangeContext(ctx context.Context, q []byte) (r *dnsmsg.Msg, err error)
+//@   props C05 C20 C01
+//@   requires t != nil && ctx != nil && t.opts.DialContext != nil && t.logger != nil && t.ctx != nil
+//@   ghost gR *dnsmsg.Msg = nil
+//@   ghost gErr error = nil
+//@   aftercall exchangePayload?: gR = ret0
+//@   aftercall exchangePayload?: gErr = ret1
+//@   assumecall exchangePayload?: ret1 == nil ==> ret0 != nil && fresh(ret0)
+//@   modifies t.c, t.dialingCall
+//@   ensures [C05:caller-id-restored] err == nil ==> r != nil && r == gR && r.ID == BE16(q, 0)
+//@   ensures [C01:short-payload-refused] len(q) < 12 ==> err != nil && r == nil
+// (frame: nothing of the caller's is written - in particular not q's bytes)
+//@   callsite exchangePayload?: [C05:one-frame-with-id-zero] len(arg2) == len(q) + 2 && BE16(arg2, 0) == uint16(len(q)) && BE16(arg2, 2) == 0 && bytesEq(arg2, 4, q, 2, len(q) - 2) && fresh(arg2)
+//@   callsite ReleaseBuf?: [C20:not-released-while-a-goroutine-may-still-write-it] false
+
+// exchangePayload: at most 6 attempts, each with the same framed query; a failure on a connection that was just
+// dialled is final.
+//@ func (t *QuicTransport) exchangePayload(ctx context.Context, payload []byte) (r *dnsmsg.Msg, err error)
+//@   props C06 C18
+//@   requires t != nil && ctx != nil && t.opts.DialContext != nil && t.logger != nil && t.ctx != nil
+//@   ghost nTry int = 0
+//@   oncall exchangeConn?: nTry = nTry + 1
+//@   modifies t.c, t.dialingCall
+//@   ensures [C06:bounded-retries] nTry <= 6
+//@   callsite exchangeConn?: [C06:same-framed-query-every-attempt] sameSlice(arg2, payload, 0, len(payload)) && arg1 == ctx
+//@   loop 1:
+//@     modifies t.c, t.dialingCall
+//@     invariant 0 <= retry && retry <= 5 && nTry == retry
+//@     decreases 6 - retry
+//@ func (t *QuicTransport) exchangeConn(ctx context.Context, payload []byte, c quic.Connection) (r *dnsmsg.Msg, err error)
+//@   props C06
+//@   requires t != nil && ctx != nil && c != nil
+//@   modifies nothing
+//@   callsite exchangeStream?: [C06:this-query-on-a-stream-of-its-own] sameSlice(arg2, payload, 0, len(payload)) && arg1 == ctx
 
 // closing a transport (any implementation) does not touch its user's state: it closes its own connections
 //@ func (t Transport) Close() (err error)
